@@ -42,6 +42,9 @@ mod statistic;
 mod tfc_achetype;
 mod visualization;
 
+#[cfg(feature = "verif_hooks")]
+pub mod verif_hooks;
+
 #[derive(
     Debug,
     Clone,
